@@ -114,6 +114,11 @@ type RaftNode struct {
 	state       *fsmState
 	snapshotsCh chan *protocol.Snapshot // channel to publish snapshots
 
+	// applyMu makes an insertion and its persistence one step with respect to
+	// queries: the trees are updated in memory before the store write, and a
+	// query served in between would read a store that lags behind them.
+	applyMu sync.RWMutex
+
 	hasherF     func() hashing.Hasher
 	metrics     *raftNodeMetrics     // Raft node metrics.
 	raftMetrics *raftInternalMetrics // Raft internal metrics.
